@@ -748,7 +748,7 @@ func (e *Engine) appendOp(st *State, s, xs Val, sliceT types.Type) Val {
 		nl := st.define("alen", "Int", sAdd(s.Len, "(slen "+xs.T+")"))
 		h := st.heap("Hi")
 		q := e.fresh("qi")
-		st.assume("(forall ((" + q + " Int)) (! (=> (and (<= 0 " + q + ") (< " + q + " " + s.Len + ")) (= (select " + h + " (elem " + addr + " " + q + ")) (select " + h + " (elem " + s.Base + " (+ " + s.Off + " " + q + "))))) :pattern ((select " + h + " (elem " + addr + " " + q + ")))))")
+		st.assume("(forall ((" + q + " Int)) (! (=> (and (<= 0 " + q + ") (< " + q + " " + s.Len + ")) (= (select " + h + " (elem " + addr + " " + q + ")) (select " + h + " " + elemAt(s.Base, s.Off, q) + "))) :pattern ((select " + h + " (elem " + addr + " " + q + ")))))")
 		e.unsupported("append of string to byte slice")
 		return Val{K: KSlice, Base: addr, Off: "0", Len: nl, Cap: nl, Root: root, NonNil: true, Ty: sliceT}
 	}
@@ -762,15 +762,15 @@ func (e *Engine) appendOp(st *State, s, xs Val, sliceT types.Type) Val {
 	copyRange := func(dstLo string, src Val, n string) {
 		if k, ok := litVal(n); ok && k <= 8 {
 			for i := int64(0); i < k; i++ {
-				v := st.load("(elem "+src.Base+" "+sAdd(src.Off, intLit(i))+")", et, src.Root)
+				v := st.load(elemAt(src.Base, src.Off, intLit(i)), et, src.Root)
 				e.assumeStored(st, "(elem "+addr+" "+sAdd(dstLo, intLit(i))+")", v, et)
 			}
 			return
 		}
 		q := e.fresh("qi")
-		leafPaths("(elem "+addr+" (+ "+dstLo+" "+q+"))", et, func(da string, k Kind, _ types.Type) {
+		leafPaths(elemAt(addr, dstLo, q), et, func(da string, k Kind, _ types.Type) {
 			h := st.heap(heapOfKind(k))
-			sa := strings.Replace(da, "(elem "+addr+" (+ "+dstLo+" "+q+"))", "(elem "+src.Base+" (+ "+src.Off+" "+q+"))", 1)
+			sa := strings.Replace(da, elemAt(addr, dstLo, q), elemAt(src.Base, src.Off, q), 1)
 			st.assume("(forall ((" + q + " Int)) (! (=> (and (<= 0 " + q + ") (< " + q + " " + n + ")) (= (select " + h + " " + da + ") (select " + h + " " + sa + "))) :pattern ((select " + h + " " + da + "))))")
 		})
 	}
@@ -830,9 +830,9 @@ func (e *Engine) copyOp(st *State, dst, src Val, call *ssa.CallCommon, pos token
 	if src.K == KStr {
 		srcAt = "(sat " + src.T + " " + q + ")"
 	} else {
-		srcAt = "(select " + old + " (elem " + src.Base + " (+ " + src.Off + " " + q + ")))"
+		srcAt = "(select " + old + " " + elemAt(src.Base, src.Off, q) + ")"
 	}
-	st.assume("(forall ((" + q + " Int)) (! (=> (and (<= 0 " + q + ") (< " + q + " " + n + ")) (= (select " + nw + " (elem " + dst.Base + " (+ " + dst.Off + " " + q + "))) " + srcAt + ")) :pattern ((select " + nw + " (elem " + dst.Base + " (+ " + dst.Off + " " + q + "))))))")
+	st.assume("(forall ((" + q + " Int)) (! (=> (and (<= 0 " + q + ") (< " + q + " " + n + ")) (= (select " + nw + " " + elemAt(dst.Base, dst.Off, q) + ") " + srcAt + ")) :pattern ((select " + nw + " " + elemAt(dst.Base, dst.Off, q) + "))))")
 	st.assume("(forall ((a Addr)) (! (=> (not " + inSliceRange("a", dst.Base, dst.Off, n) + ") (= (select " + nw + " a) (select " + old + " a))) :pattern ((select " + nw + " a))))")
 	return Val{K: KInt, T: n}
 }
